@@ -54,6 +54,8 @@ Uses(t, n) == IF t.op \in {"x", "y"} THEN t.op = n
 Init == /\ s \in SHAPES /\ body \in Bodies(DEPTH) /\ head \in Heads /\ red \in Reds /\ track \in TRACK
         /\ ReducerOK(head, red)
         \* t - t is identically zero: norm is not differentiable there (and in floating point its value is sqrt of noise)
+        \* (the harness applies the same exclusion to bodies that are zero for a deeper reason, e.g. A (x - x): it skips norm
+        \*  programs whose dense value is exactly 0)
         /\ ~(body.op = "sub" /\ body.a = body.b /\ red = "norm")
         \* the tracked operand has to occur in the program (otherwise there is nothing to differentiate)
         /\ (track \in {"x", "x0", "xl", "xr"} => Uses(body, "x"))
